@@ -1,9 +1,10 @@
 """C15 — retry: exhaustive correspondence between retry_func/@retry and the Lean model + spec."""
-import itertools, logging
+import itertools, logging, functools
+from datetime import timedelta
 
 RULE = ('exhaustive: attempts in -1..6 x every outcome sequence up to the tier length over {return, listed, subclass of listed, '
-        'foreign Exception, BaseException} x exceptions spec {class, tuple, tuple(base, sub)} x {retry_func, @retry}; plus seeded long '
-        'scripts (length <= 40, attempts <= 45).  non-trivial = at least one invocation raised')
+        'foreign Exception, BaseException; less common: returned exception instances, TypeError, None, ExceptionGroups of listed / mixed leaves} x exceptions spec {class, tuple, tuple(base, sub)} x {retry_func, @retry}; plus seeded long '
+        'scripts (length <= 40, attempts <= 45); kinds of callable (function, lambda, bound method, functools.partial, instance with __call__), logger configurations (none + logging disabled, own logger at WARNING / ERROR level), sleep_time 0 / 1.5 s (durations recorded).  non-trivial = at least one invocation raised')
 EXHAUSTIVE = {'quick': True, 'thorough': True}
 ASSUMPTIONS = ['time.sleep and the logger are patched in the harness process', 'outcomes of the retried function are scripted; the function is deterministic per invocation index']
 TRUSTED = ['Python `except <classes>` semantics (isinstance against a class or tuple) is taken from the interpreter: the harness classifies each raised object as listed/foreign with the same isinstance test']
@@ -12,11 +13,16 @@ KINDS = ['ret', 'listed', 'listedsub', 'foreign', 'base']
 # less common outcomes (seeded part + a reduced exhaustive block): the function RETURNS an exception instance (a return is a return,
 # whatever is returned), raises TypeError (foreign unless the spec lists it - the error class a wrong call of the machinery itself
 # would raise), returns None
-KINDS_X = KINDS + ['retexc', 'retforeignexc', 'typeerr', 'retnone']
+KINDS_X = KINDS + ['retexc', 'retforeignexc', 'typeerr', 'retnone', 'group_listed', 'group_mixed', 'basegroup']
+FKINDS = ['function', 'lambda', 'method', 'partial', 'instance']
+NAMED = {'function': True, 'lambda': True, 'method': True, 'partial': False, 'instance': False}
+LOGS = ['disabled', 'warn_level', 'error_level']
 SPECS = ['class', 'tuple', 'tuple_base_sub']
 SPECS_X = SPECS + ['tuple_with_typeerror']
 ABS = {'ret': 'ret', 'listed': 'listed', 'listedsub': 'listed', 'foreign': 'foreign', 'base': 'foreign',
-       'retexc': 'ret', 'retforeignexc': 'ret', 'retnone': 'ret'}
+       'retexc': 'ret', 'retforeignexc': 'ret', 'retnone': 'ret',
+       # an ExceptionGroup is not an instance of the listed classes, whatever its leaves are: foreign
+       'group_listed': 'foreign', 'group_mixed': 'foreign', 'basegroup': 'foreign'}
 
 
 def abs_kind(k, spec):
@@ -25,9 +31,9 @@ def abs_kind(k, spec):
     return ABS[k]
 
 
-def mk(attempts, seq, form, spec):
-    return {'m': 'retry', 'c': {'attempts': attempts, 'script': [[abs_kind(k, spec), i] for i, k in enumerate(seq)]},
-            'x': {'kinds': list(seq), 'form': form, 'spec': spec}}
+def mk(attempts, seq, form, spec, fkind='function', log='disabled', st=0):
+    return {'m': 'retry', 'c': {'attempts': attempts, 'script': [[abs_kind(k, spec), i] for i, k in enumerate(seq)], 'named': NAMED[fkind]},
+            'x': {'kinds': list(seq), 'form': form, 'spec': spec, 'fkind': fkind, 'log': log, 'st': st}}
 
 
 def cases(rng, tier):
@@ -45,13 +51,19 @@ def cases(rng, tier):
     for attempts in range(0, 4):          # the extended alphabet, exhaustively up to length 3
         for n in range(1, 4):
             for k, seq in enumerate(itertools.product(KINDS_X, repeat=n)):
-                if any(x in seq for x in ('retexc', 'retforeignexc', 'typeerr', 'retnone')):
+                if any(x not in KINDS for x in seq):
                     for form in ('func', 'deco'):
                         out.append(mk(attempts, seq, form, SPECS_X[k % 4]))
+    for attempts in range(0, 5):          # every kind of callable, logger configuration and sleep time, exhaustively up to length 3
+        for n in range(0, 4):
+            for k, seq in enumerate(itertools.product(KINDS, repeat=n)):
+                for j, fkind in enumerate(FKINDS):
+                    out.append(mk(attempts, seq, ('func', 'deco')[(k + j) % 2], SPECS[k % 3], fkind, LOGS[(k + j) % 3], (0, 1.5)[(k // 2 + j) % 2]))
     for _ in range(300 if tier == 'quick' else 5000):
         n = rng.randint(5, 40)
         seq = [rng.choice(['listed', 'listedsub'] * 6 + KINDS_X) for _ in range(n)]
-        out.append(mk(rng.randint(-3, 45), seq, rng.choice(['func', 'deco']), rng.choice(SPECS_X)))
+        out.append(mk(rng.randint(-3, 45), seq, rng.choice(['func', 'deco']), rng.choice(SPECS_X), rng.choice(FKINDS), rng.choice(LOGS),
+                      rng.choice([0, 1.5])))
     return out
 
 
@@ -59,7 +71,8 @@ def search(rng, tier, near):
     out = []
     for _ in range(4000):
         n = rng.randint(0, 12)
-        out.append(mk(rng.randint(-2, 14), [rng.choice(KINDS_X) for _ in range(n)], rng.choice(['func', 'deco']), rng.choice(SPECS_X)))
+        out.append(mk(rng.randint(-2, 14), [rng.choice(KINDS_X) for _ in range(n)], rng.choice(['func', 'deco']), rng.choice(SPECS_X),
+                      rng.choice(FKINDS), rng.choice(LOGS), rng.choice([0, 1.5])))
     return out
 
 
@@ -74,8 +87,14 @@ def run_impl(cases):
     class BE(BaseException): pass
     specs = {'class': Base1, 'tuple': (Base1, Base2), 'tuple_base_sub': (Base1, Sub1), 'tuple_with_typeerror': (Base1, TypeError)}
     events = []
+    durations = []
     orig_sleep = R.time.sleep
-    R.time.sleep = lambda s: events.append(['sleep'])
+    R.time.sleep = lambda s: (events.append(['sleep']), durations.append(s))[0]
+    loggers = {'disabled': None}
+    for name, lvl in (('warn_level', logging.WARNING), ('error_level', logging.ERROR)):
+        lg = logging.Logger('pedverif_' + name, level=lvl)       # not registered: no propagation to the root logger
+        lg.addHandler(logging.NullHandler())
+        loggers[name] = lg
     out = []
     # one decorated function per (attempts, exceptions spec), reused for every case of that configuration: the contract is
     # per call, so a budget / cache shared between calls of the same decorated function must not show
@@ -90,6 +109,14 @@ def run_impl(cases):
         if seq[i] in ('ret', 'retexc', 'retforeignexc', 'retnone'): return objs[i]
         raise objs[i]
     wrappers = {}
+
+    class CallableObj:
+        def __call__(self, *a, **k): return f(*a, **k)
+
+    class Holder:
+        def m(self, *a, **k): return f(*a, **k)
+    callables = {'function': f, 'lambda': lambda *a, **k: f(*a, **k), 'method': Holder().m, 'partial': functools.partial(f),
+                 'instance': CallableObj()}
     try:
         for case in cases:
             x = case['x']; seq = x['kinds']; attempts = case['c']['attempts']
@@ -97,18 +124,27 @@ def run_impl(cases):
             for i, k in enumerate(seq):
                 objs.append({'ret': lambda i=i: ('R', i), 'listed': lambda: Base1(), 'listedsub': lambda: Sub1(),
                              'foreign': lambda: Other(), 'base': lambda: BE(), 'retexc': lambda: Base1(), 'retforeignexc': lambda: Other(),
-                             'typeerr': lambda: TypeError('raised by the retried function'), 'retnone': lambda: None}[k]())
-            del events[:]
+                             'typeerr': lambda: TypeError('raised by the retried function'), 'retnone': lambda: None,
+                             'group_listed': lambda: ExceptionGroup('g', [Base1(), Sub1()]),
+                             'group_mixed': lambda: ExceptionGroup('g', [Base1(), Other()]),
+                             'basegroup': lambda: BaseExceptionGroup('g', [BE()])}[k]())
+            del events[:]; del durations[:]
+            fn = callables[x.get('fkind', 'function')]
+            log = x.get('log', 'disabled'); st = x.get('st', 0)
+            logging.disable(logging.CRITICAL if log == 'disabled' else logging.NOTSET)
+            extra = {}
+            if log != 'disabled': extra['logger'] = loggers[log]
+            if st: extra['sleep_time'] = timedelta(seconds=st)
             arglog = []
             cur.update(seq=seq, objs=objs, arglog=arglog)
             A = (object(), object()); K = {'x': object()}
             try:
                 if x['form'] == 'func':
-                    r = R.retry_func(f, *A, attempts=attempts, exceptions=specs[x['spec']], **K)
+                    r = R.retry_func(fn, *A, attempts=attempts, exceptions=specs[x['spec']], **extra, **K)
                 else:
-                    key = (attempts, x['spec'])
+                    key = (attempts, x['spec'], x.get('fkind', 'function'), log, st)
                     if key not in wrappers:
-                        wrappers[key] = R.retry(attempts=attempts, exceptions=specs[x['spec']])(f)
+                        wrappers[key] = R.retry(attempts=attempts, exceptions=specs[x['spec']], **extra)(fn)
                     r = wrappers[key](*A, **K)
                 if r is sentinel: res = ['ret', 999999]
                 else:
@@ -119,9 +155,11 @@ def run_impl(cases):
                 idx = [i for i, o in enumerate(objs) if o is e]
                 res = ['exc', idx[0]] if idx else ['exc', -1, type(e).__name__]
             args_ok = all(len(a) == 2 and a[0] is A[0] and a[1] is A[1] and list(k) == ['x'] and k['x'] is K['x'] for a, k in arglog)
-            out.append({'trace': [list(e) for e in events], 'res': res, 'args_unchanged': args_ok})
+            out.append({'trace': [list(e) for e in events], 'res': res, 'args_unchanged': args_ok,
+                        'durations_ok': all(d == st for d in durations)})
     finally:
         R.time.sleep = orig_sleep
+        logging.disable(logging.CRITICAL)
     return out
 
 
@@ -135,6 +173,8 @@ def judge(case, impl, model):
         pfail = f"caller saw {impl['res']} instead of the last invocation's outcome {s['res']}"
     elif not impl['args_unchanged']:
         pfail = 'an invocation did not receive the caller\'s argument objects unchanged'
+    elif not impl.get('durations_ok', True):
+        pfail = 'a wait between attempts did not last the configured sleep_time'
     kinds = case['x']['kinds']
     return {'corr': corr, 'pfail': pfail, 'nontrivial': any(k != 'ret' for k in kinds[:1]) or len(kinds) == 0,
             'tag': f"calls={min(len(impl['trace']), 9)}/{impl['res'][0]}", 'why': '' if corr else 'trace/result differ from the model'}
